@@ -84,14 +84,16 @@ def isOneOrZero : Expr → Bool
   | _ => false
 
 /-- the value checks shared by both validators, in the order of the Python (after the emptiness checks on the event
-lists): empty target graph, One()/Zero() population expressions (NotImplementedError), every value None, no domain,
+lists): empty target graph, One()/Zero() population expressions (NotImplementedError), every value None, a valueless
+self-intervened variable (TypeError; unconditional validator only), no domain,
 empty domain graph / order, selection node or cycle in the target graph, a domain graph over other variables, an event
 variable outside the graph, a value that belongs to another variable, then the per-domain checks -/
-def validateCommon (target : MG Name) (domains : List Domain) (eventVars : List Var) (allNone valueMismatch : Bool) :
-    Except Err Unit :=
+def validateCommon (target : MG Name) (domains : List Domain) (eventVars : List Var)
+    (allNone selfNone valueMismatch : Bool) : Except Err Unit :=
   if target.nodes.isEmpty then vErr
   else if domains.any (fun d => isOneOrZero d.pop) then .error (.invalidInput "NotImplementedError")
   else if allNone then vErr
+  else if selfNone then .error (.invalidInput "TypeError")
   else if domains.isEmpty then vErr
   else if domains.any (fun d => d.graph.nodes.isEmpty) then vErr
   else if domains.any (fun d => d.topo.isEmpty) then vErr
@@ -104,10 +106,15 @@ def validateCommon (target : MG Name) (domains : List Domain) (eventVars : List 
 
 def valueMismatch (e : Ctf.Event) : Bool := e.any fun p => match p.2 with | some i => i.name != p.1.name | none => false
 
+/-- check 6.5 of the unconditional validator (after `fix:` 333fa44): a variable that intervenes on itself has no value
+(SIMPLIFY raises `TypeError` on such an event; before the fix it did so after the validator had accepted the event) -/
+def selfNone (e : Ctf.Event) : Bool := e.any fun p => p.2.isNone && Ctf.selfIntervened p.1
+
 /-- `_validate_transport_unconditional_counterfactual_query_input` -/
 def validateU (target : MG Name) (domains : List Domain) (event : Ctf.Event) : Except Err Unit :=
   if event.isEmpty then vErr
-  else validateCommon target domains (event.map (·.1)) (event.all fun p => p.2.isNone) (valueMismatch event)
+  else validateCommon target domains (event.map (·.1)) (event.all fun p => p.2.isNone) (selfNone event)
+    (valueMismatch event)
 
 /-- `_event_from_counterfactuals_strict` (a variable without a value raises `TypeError`) followed by
 `_validate_transport_conditional_counterfactual_query_input` -/
@@ -115,7 +122,8 @@ def validateC (target : MG Name) (domains : List Domain) (outcomes conditions : 
   if (outcomes ++ conditions).any (fun p => p.2.isNone) then .error (.invalidInput "TypeError")
   else if conditions.isEmpty then vErr
   else if outcomes.isEmpty then vErr
-  else validateCommon target domains ((conditions ++ outcomes).map (·.1)) false (valueMismatch (conditions ++ outcomes))
+  else validateCommon target domains ((conditions ++ outcomes).map (·.1)) false false
+    (valueMismatch (conditions ++ outcomes))
 
 /-! ### Algorithm 2, line 3: inconsistent ctf-factors -/
 
@@ -259,9 +267,8 @@ def namesToValues (outcomes conditions : Ctf.Event) (n : Name) : List Ctf.Val :=
 def eventNames (e : Ctf.Event) : List Name := dedup' (e.map (·.1.name))
 
 /-- line 2, first loop: the union of the ancestral components that contain an outcome VARIABLE (as a Python object:
-name and subscripts; the components store the variables as `get_ancestors_of_counterfactual` builds them, so an outcome
-`Y_x` whose subscript is not kept is not found: findings `crash:ctfTR-derived-event-rejected`,
-`value:outcome-lookup-miss`) -/
+name and subscripts; the components store the variables as `get_ancestors_of_counterfactual` builds them, so the
+outcomes are looked up under the form `Ctf.ancestralSetRoot` gives them: `lookupOutcomes`) -/
 def deriveVars (comps : List (List Var)) (outVars : List Var) : List Var :=
   dedup' ((comps.filter fun c => c.any fun v => Ctf.mem' v outVars).flatten)
 
@@ -271,15 +278,29 @@ def deriveEvent (outcomes : Ctf.Event) (D : List Var) : Ctf.Event :=
     if outcomes.any (fun p => decide (p.1 = v)) then (outcomeValues outcomes v).map fun x => (v, x)
     else [(v, none)]
 
-/-- line 1 (`get_ancestral_components`) and `_transport_conditional_counterfactual_query_line_2`: the event `D*` in
+/-- line 1 of Algorithm 3: the ancestral components of `Y_* ∪ X_*` given `X_*` -/
+def condComps (g : MG Name) (o c : Ctf.Event) : Except Err (List (List Var)) :=
+  Ctf.ancestralComponents g (eventVars c) (Ctf.unionVars (eventVars c) (eventVars o))
+
+/-- `minimized_outcome_variable_to_value_mappings` (after `fix:` f335599): every outcome under the form in which it
+appears in its own ancestral set, with its value.  Before the fix the outcomes were looked up under their raw form, and
+an outcome `Y_x` whose subscript is not kept was not found (former findings `crash:ctfTR-derived-event-rejected`,
+`crash:ctfTR-final-check`, `cond:value:outcome-lookup-miss`). -/
+def lookupOutcomes (g : MG Name) (outcomes conditions : Ctf.Event) : Except Err Ctf.Event :=
+  outcomes.mapM fun p => do pure (← Ctf.ancestralSetRoot g (eventVars conditions) p.1, p.2)
+
+/-- `_transport_conditional_counterfactual_query_line_2` for given components and lookup keys: the event `D*` in
 ctf-factor form and the graph vertices of `D*` -/
-def line2C (g : MG Name) (outcomes conditions : Ctf.Event) : Except Err (Ctf.Event × List Name) := do
-  let condVars := eventVars conditions
-  let outVars := eventVars outcomes
-  let comps ← Ctf.ancestralComponents g condVars (Ctf.unionVars condVars outVars)
-  let D := deriveVars comps outVars
-  let ev ← Ctf.convertEvent g (deriveEvent outcomes D)
+def line2COf (g : MG Name) (comps : List (List Var)) (lookup : Ctf.Event) : Except Err (Ctf.Event × List Name) := do
+  let D := deriveVars comps (eventVars lookup)
+  let ev ← Ctf.convertEvent g (deriveEvent lookup D)
   pure (ev, dedup' (D.map (·.name)))
+
+/-- line 1 (`get_ancestral_components`), the lookup keys, and `_transport_conditional_counterfactual_query_line_2` -/
+def line2C (g : MG Name) (outcomes conditions : Ctf.Event) : Except Err (Ctf.Event × List Name) := do
+  let comps ← condComps g outcomes conditions
+  let lookup ← lookupOutcomes g outcomes conditions
+  line2COf g comps lookup
 
 /-- `simplified_event_variable_names_to_values[Variable(n)]` (a dict comprehension: the last pair with that name wins);
 only looked up for names that occur -/
@@ -370,10 +391,11 @@ def ctfTROrderSensitive (target : MG Name) (domains : List Domain) (outcomes con
 `ctfTR_no_internal_error_partial`, Props/C09 §6; reported by the driver op `ctftr classes`) -/
 
 /-- the variables of `D*` before the conversion to ctf-factor form: the union of the ancestral components that contain an
-outcome variable -/
+outcome variable (under its lookup form) -/
 def dstarVars (g : MG Name) (o c : Ctf.Event) : Except Err (List Var) := do
-  let comps ← Ctf.ancestralComponents g (eventVars c) (Ctf.unionVars (eventVars c) (eventVars o))
-  pure (deriveVars comps (eventVars o))
+  let comps ← condComps g o c
+  let lookup ← lookupOutcomes g o c
+  pure (deriveVars comps (eventVars lookup))
 
 /-- every outcome variable is found in the ancestral components under its own name (the complement is the class of the
 findings `crash:ctfTR-derived-event-rejected`, `crash:ctfTR-final-check`, `value:outcome-lookup-miss`) -/
@@ -452,10 +474,6 @@ def ctfTRuInClass (target : MG Name) (domains : List Domain) (event : Ctf.Event)
 /-! ### the class of conditional queries covered by the value theorem of Algorithm 3 (Y0/Props/C09Sound.lean
 `ctfTR_sound_partial`); decidable, reported by the driver (`ctftr cond`) so that the harness can tie the theorem to the
 oracle -/
-
-/-- line 1 of Algorithm 3: the ancestral components of `Y_* ∪ X_*` given `X_*` -/
-def condComps (g : MG Name) (o c : Ctf.Event) : Except Err (List (List Var)) :=
-  Ctf.ancestralComponents g (eventVars c) (Ctf.unionVars (eventVars c) (eventVars o))
 
 /-- no two subscripts of one variable name the same vertex with different values -/
 def consistentIvs (S : List Iv) : Bool := S.all fun i => S.all fun j => i.name != j.name || decide (i = j)
